@@ -91,7 +91,7 @@ CTOR_CODE = {("create_request", False): 0, ("create_notification", False): 2, ("
 # Value generators (the quantifier of the property)
 # --------------------------------------------------------------------------- #
 LS, PS, ASTRAL = "\u2028", "\u2029", "\U0001f600"
-ATOMS = [None, True, 0, -1, 2 ** 63, 2 ** 64 - 1, 1.5, "", "a", " ", LS, ASTRAL, [], {}]
+ATOMS = [None, True, 0, -1, 2 ** 63, 2 ** 64 - 1, 2 ** 64, -(2 ** 63) - 1, 10 ** 30, 1.5, "", "a", " ", LS, ASTRAL, [], {}]
 IDS = [0, 1, -1, 42, 2 ** 31 - 1, 2 ** 53 + 1, 2 ** 63, 2 ** 64 - 1, 2 ** 63 + 12345, -(2 ** 63), "", "a", "req-1", "123", "-5", "0", "007",
        "42", "1.5", "18446744073709551615", "\u00e9", LS, ASTRAL, "null", "true"]
 METHODS = ["m", "", "tools/call", "notifications/x", "a" + LS + "b", ASTRAL]
@@ -118,7 +118,7 @@ def deep_value(rng, depth=0, maxd=5):
         if k == 1:
             return rng.choice([True, False])
         if k == 2:
-            return rng.choice([0, -1, 1, 2 ** 31, 2 ** 53 + 1, 2 ** 63 - 1, 2 ** 63, 2 ** 64 - 1, -(2 ** 63), rng.randrange(-2 ** 63, 2 ** 64)])
+            return rng.choice([0, -1, 1, 2 ** 31, 2 ** 53 + 1, 2 ** 63 - 1, 2 ** 63, 2 ** 64 - 1, -(2 ** 63), 2 ** 64, -(2 ** 63) - 1, 10 ** 30, rng.randrange(-2 ** 63, 2 ** 64)])
         if k == 3:
             return rng.choice([1.5, -2.25, 1e300, 5e-324, 0.1, -0.0, 3.0, 1e16])
         if k == 4:
@@ -587,7 +587,7 @@ def fill_intent(intent, wire_view):
     return out
 
 
-DRIVEN = {"stdio-transport", "http-transport", "sse-transport"}
+DRIVEN = {"stdio-transport", "stdiotext-transport", "http-transport", "sse-transport"}
 
 
 def blame(c, row):
